@@ -30,6 +30,15 @@ fn alphabet() -> Vec<String> {
         a.push(format!("[1, 2] via ({} => do {{\n  t = {}\n  return t\n}})", n, n));
         a.push(format!("sort_by([2, 1], {} => do {{\n  inner_{} = {}\n  return inner_{}\n}})", n, n, n, n));
     }
+    // a function with a free name that is bound later, rebinding of functions under other names
+    a.push("fh = q => q + helper".to_string());
+    a.push("helper = 10".to_string());
+    a.push("fh(1)".to_string());
+    a.push("do {\n  helper = fh\n  return 0\n}".to_string());
+    a.push("do {\n  x = fh\n  y = f_x\n  return 0\n}".to_string());
+    a.push("[z = fh, 1]".to_string());
+    a.push("y = fh".to_string());
+    a.push("(g => do {\n  helper = g\n  return 0\n})(fh)".to_string());
     for n in ["inputs", "constants", "map", "sum", "inf"] {
         a.push(format!("{} = 1", n));
     }
@@ -37,6 +46,38 @@ fn alphabet() -> Vec<String> {
     a.push("t + inner_x".to_string());
     a.push("x + y".to_string());
     a
+}
+
+/// the names of the function cells reachable from a value, in traversal order: the name is
+/// what a call binds to the function itself, so it is part of what is observed through a binding
+fn lambda_names(v: &blots_core::values::Value, heap: &blots_core::heap::Heap, out: &mut String, budget: &mut usize) {
+    use blots_core::heap::{HeapPointer, HeapValue};
+    use blots_core::values::Value;
+    if *budget == 0 {
+        return;
+    }
+    *budget -= 1;
+    match v {
+        Value::List(p) => {
+            if let HeapValue::List(l) = p.reify(heap) {
+                l.iter().for_each(|x| lambda_names(x, heap, out, budget));
+            }
+        }
+        Value::Record(p) => {
+            if let HeapValue::Record(r) = p.reify(heap) {
+                r.iter().for_each(|(_, x)| lambda_names(x, heap, out, budget));
+            }
+        }
+        Value::Lambda(p) => {
+            if let HeapValue::Lambda(def) = p.reify(heap) {
+                out.push_str(&format!("<{}>", def.name.clone().unwrap_or("-".into())));
+                let mut kvs: Vec<_> = def.scope.iter().collect();
+                kvs.sort_by(|a, b| a.0.cmp(b.0));
+                kvs.iter().for_each(|(_, x)| lambda_names(x, heap, out, budget));
+            }
+        }
+        _ => {}
+    }
 }
 
 /// run one session on the real evaluator checking the snapshot invariant after every statement
@@ -55,7 +96,13 @@ fn check_invariants(rep: &mut Report, src: &str) {
     let _ = texts;
     for (k, e) in stmts.iter().enumerate() {
         let r = guarded(|| blots_core::expressions::evaluate_ast(e, heap.clone(), env.clone(), 0, source.clone()).map_err(|x| x.message.clone()));
-        let now: BTreeMap<String, String> = env.iter().map(|(n, v)| (n, wire::value(&v, &heap.borrow()))).collect();
+        let now: BTreeMap<String, String> = env.iter().map(|(n, v)| {
+            let h = heap.borrow();
+            let mut w = wire::value(&v, &h);
+            w.push_str(" names ");
+            lambda_names(&v, &h, &mut w, &mut 10000);
+            (n, w)
+        }).collect();
         for (n, v) in snapshot.iter() {
             match now.get(n) {
                 Some(v2) if v2 == v => {}
